@@ -50,10 +50,15 @@ WriterRule(a) ==
   ELSE "ok"
 
 \* C11: requested settings are recorded verbatim; rq = [alg, bits, min, max, window, hash_len, ctype, clevel, metadata]
+\* the documented rounding of a stated average chunk size: down to a power of two; the filter has log2 of that minus one bits
+RECURSIVE Log2Floor(_)
+Log2Floor(n) == IF n <= 1 THEN 0 ELSE 1 + Log2Floor(n \div 2)
 SettingsRule(a, rq) ==
   IF a.params.alg # rq.alg THEN "C11 SETTINGS: chunking algorithm not recorded as requested"
   ELSE IF a.params.max_s # rq.max_s THEN "C11 SETTINGS: max / fixed chunk size not recorded as requested"
   ELSE IF rq.alg # 2 /\ (a.params.min_s # rq.min_s \/ a.params.window_s # rq.window_s \/ a.params.bits # rq.bits) THEN "C11 SETTINGS: min size / window / filter bits not recorded as requested"
+  ELSE IF rq.alg # 2 /\ "avg" \in DOMAIN rq /\ rq.avg > 0 /\ a.params.bits # Log2Floor(rq.avg) - 1
+       THEN "C11 SETTINGS: filter bits are not those of the stated average chunk size rounded down to a power of two"
   ELSE IF a.params.hash_len # rq.hash_len THEN "C11 SETTINGS: hash length not recorded as requested"
   ELSE IF a.compression.type # rq.ctype \/ (rq.ctype # 0 /\ a.compression.level # rq.clevel) THEN "C11 SETTINGS: compression not recorded as requested"
   ELSE IF ToSet(a.metadata) # ToSet(rq.metadata) \/ Len(a.metadata) # Cardinality(ToSet(rq.metadata)) THEN "C11 SETTINGS: metadata not recorded as requested"
